@@ -28,7 +28,8 @@ def bounded_target(rnd, d):
         lo = None
     elif rnd.random() < 0.2:
         hi = None
-    flavour = rnd.choice(["normal-own", "uniform", "bayes-inherited", "composite-blocks", "composite-own", "laplace-own"])
+    flavour = rnd.choice(["normal-own", "uniform", "bayes-inherited", "composite-blocks", "composite-own", "laplace-own",
+                          "bayes-own", "bayes-own-then-add", "bayes-update-then-add"])
     mu = np.array([[rnd.uniform(-0.3, 0.3)] for _ in range(d)])
     var = np.array([[rnd.choice([0.5, 1.0, 2.0])] for _ in range(d)])
     if flavour == "normal-own":
@@ -42,6 +43,21 @@ def bounded_target(rnd, d):
         lo2 = None if lo is None else lo - 0.5
         hi2 = None if hi is None else hi + 0.5
         dist = D.BayesRule([D.Normal(mu.copy(), var.copy(), lower_bounds=lo, upper_bounds=hi2), D.Normal(-mu, 2 * var, lower_bounds=lo2, upper_bounds=hi)])
+    elif flavour == "bayes-own":
+        # the wrapper's own bounds, parts unbounded or looser
+        dist = D.BayesRule([D.Normal(mu.copy(), var.copy()), D.Normal(-mu, 2 * var, lower_bounds=None if lo is None else lo - 1.0)],
+                           lower_bounds=None if lo is None else lo.copy(), upper_bounds=None if hi is None else hi.copy())
+    elif flavour == "bayes-own-then-add":
+        # own bounds given to the constructor, the list of terms grows afterwards
+        dist = D.BayesRule([D.Normal(mu.copy(), var.copy())], lower_bounds=None if lo is None else lo.copy(), upper_bounds=None if hi is None else hi.copy())
+        dist.add_distribution(D.Normal(-mu, 2 * var))
+        if rnd.random() < 0.5:
+            dist.add_distribution(D.Laplace(mu.copy(), np.sqrt(var), upper_bounds=None if hi is None else hi + 0.25))
+    elif flavour == "bayes-update-then-add":
+        # bounds put in force with update_bounds, then another term is added
+        dist = D.BayesRule([D.Normal(mu.copy(), var.copy())])
+        dist.update_bounds(None if lo is None else lo.copy(), None if hi is None else hi.copy())
+        dist.add_distribution(D.Normal(-mu, 2 * var))
     elif flavour == "composite-own":
         dist = D.CompositeDistribution([D.Normal(mu[i:i + 1].copy(), var[i:i + 1].copy()) for i in range(d)], lower_bounds=lo, upper_bounds=hi)
     else:
@@ -106,7 +122,8 @@ def run(tier, seed):
             if g.shape != (d, 1):
                 problems.append(f"gradient shape {g.shape}")
         if problems:
-            findings.append(Finding("C06", f"{desc['flavour']}: {problems[0]}", {"kind": "misfit", "problem": problems[0][:24], "nan": bool(np.any(np.isnan(x)))},
+            findings.append(Finding("C06", f"{desc['flavour']}: {problems[0]}", {"kind": "misfit", "problem": ("finite-outside" if "violating" in problems[0] else "inside-differs" if "inside the box" in problems[0] else "gradient-shape"),
+                                     "flavour": desc["flavour"].split("-")[0], "nan": bool(np.any(np.isnan(x)))},
                                     {"oracle": "misfit", "stimulus": stim, "problems": problems}))
         if desc["flavour"] == "normal-own":
             bstr = f"{opt(None if lo is None else vhex(lo))} {opt(None if hi is None else vhex(hi))}"
